@@ -80,6 +80,7 @@ Agree(x, y) ==
 \* operand sets for the two configurations
 Dom1  == 0..255
 Dom31 == {0, 1, 2, 3, 7, 100, 127, 128, 129, 254, 255}
+Dom1q == (0..17) \cup {31, 32, 33, 63, 64, 65, 100, 126, 127, 128, 129, 130, 191, 192, 200, 240, 253, 254, 255} \cup {k * 7 + 3 : k \in 0..35}
 Dom2  == {0, 1, 2, 3, 7, 8, 9, 15, 16, 17, 31, 32, 127, 128, 129, 255, 256, 257, 511, 512,
           32767, 32768, 32769, 65279, 65280, 65534, 65535} \cup {(k * 241 + 5) % 65536 : k \in 0..272}
 Dom32 == {0, 1, 2, 255, 256, 257, 32768, 65535, 12345}
